@@ -105,3 +105,24 @@ func VerifC19SequenceKeysInjective() {
 		rt.Assert("J1-same-sequence-any-sequence", q1 == q2)
 	}
 }
+
+// VerifC19ReadBackByPath (J2 for the per-path readers): with entries stored for two destinations whose valid names have 3 and
+// 3..4 bytes (so that one may extend the other), the reader for one (source, destination) path returns exactly the entries
+// written for that path - an entry written for another destination is never read back as one of this path.
+func VerifC19ReadBackByPath() {
+	rt.Opt("exact-decimal")
+	rt.Opt("structured-keys")
+	ctx := rt.EmptyCtx()
+	k := NewKeeper(rt.Codec(), rt.StoreKey(host.StoreKey), nil, nil, nil)
+	s, d1 := vName("s"), vName("d1")
+	d2 := rt.StrN("d2", 3+rt.IntRange("d2.extraBytes", 0, 1))
+	rt.Assume(host.SrcChainValidator(d2) == nil && d2 != d1)
+	q1, q2 := rt.U64("q1"), rt.U64("q2")
+	rt.Assume(q1 < 1000 && q2 < 1000)
+	h1, h2 := rt.BytesN("hash1", 4), rt.BytesN("hash2", 4)
+	k.SetPacketCommitment(ctx, s, d1, q1, h1)
+	k.SetPacketCommitment(ctx, s, d2, q2, h2)
+	got := k.GetAllPacketCommitmentsByPath(ctx, s, d1)
+	rt.Reach("read-by-path")
+	rt.Assert("J2-path-reader-returns-exactly-the-path's-entries", len(got) == 1 && got[0].Sequence == q1 && rt.BytesEq(got[0].Data, h1))
+}
